@@ -343,6 +343,19 @@ class Renderer:
             new_starts.append((len(self.buf) + self.base, i))
             self.u8(len(l)); self.raw(l)
             i += 1
+        zeros = getattr(self, "zeros", None)
+        if zeros is None:
+            zeros = self.zeros = []
+        if compress_ok and self.lay.mode == 'rand' and zeros and r.random() < 0.3:
+            # the root (the end of every name) written as a pointer to the terminating zero octet of an earlier name:
+            # a legal backward pointer to a prior occurrence of the (empty) suffix
+            self.buf += struct.pack(">H", 0xC000 | r.choice(zeros))
+            for (o, k) in new_starts:
+                self.starts.append((o, tuple(l.lower() for l in labels[k:]), 1))
+            self.bounds.append(len(self.buf))
+            return
+        if len(self.buf) + self.base < 0x4000:
+            zeros.append(len(self.buf) + self.base)
         self.u8(0)
         for (o, k) in new_starts:
             self.starts.append((o, tuple(l.lower() for l in labels[k:]), 0))
